@@ -466,7 +466,7 @@ def ref_units(tier, seed):
     units = []
     for cfg, k in configs:
         for fl in flavours:
-            a = {"seed": seed, "max-n": 7 if tier == "quick" else 14, "max-steps": 30}
+            a = {"seed": seed, "max-n": 7 if tier == "quick" else 14, "max-steps": 30, "focus": "C11"}
             units.append(Unit("ref", cfg, k, fl, a, cases if fl != "casan" else cases // 3, batch=200))
     return units
 
@@ -535,6 +535,8 @@ def elem_units(tier, seed):
 def run_elem_check(tier):
     t0 = time.time()
     units = elem_units(tier, vf.SEED)
+    for u in units:
+        u.args["focus"] = "C12"  # monitors owned only by other properties do not cut the case before C12's own ones have looked
     errs = vf.run_units(units)
     return vf.conclude("C12", tier, "exploration", units, errs, ELEM_RULE, t0,
                        assumptions=["'element' is Vector::value_type, as in the property statement", "element = reference and reference = element only between equal field sizes (documented precondition)",
